@@ -134,7 +134,7 @@ func (vm *VM) compile(ctx context.Context, text *text, s string, args ...interfa
 		}
 	}
 	if len(p.args) != 0 {
-		return errTooManyArgs(p.args)
+		return p.errTooManyArgs()
 	}
 	return nil
 }
